@@ -69,6 +69,19 @@ def plan_for(npk, rnd, style):
     return steps
 
 
+IDBITS = [19, 16, 15, 0, 18, 8, 17, 4, 12, 1, 14, 7, 13, 2, 11, 3, 10, 5, 9, 6]
+
+
+def with_idbits(scns, rnd):
+    """Scenarios with two streams use stream ids that differ in exactly one of the 20 bits of the field."""
+    k = rnd.randrange(2) * 2          # quick tiers of different seeds start at different positions
+    for sc in scns:
+        if len(sc["streams"]) > 1 and not sc.get("sameid"):
+            sc["idbit"] = IDBITS[k % len(IDBITS)]
+            k += 1
+    return scns
+
+
 def seeded_lossless(c, rnd):
     out = []
     sizes = [20, 21, 39, 40, 41, 45, 56, 57, 60, 81, 82, 100, 123, 300, 576, 1280, 1500]
@@ -258,7 +271,8 @@ def run(c):
     tlc_scns, total = from_tlc(c, g, rnd)
     if not tlc_scns:
         raise vlib.Infra("generator printed no scenarios")
-    scns = seeded_lossless(c, rnd) + seeded_faulty(c, rnd) + seeded_adversarial(c, rnd) + seeded_ingress(c, rnd) + tlc_scns
+    scns = with_idbits(seeded_lossless(c, rnd) + seeded_faulty(c, rnd), rnd) + seeded_adversarial(c, rnd) + \
+        seeded_ingress(c, rnd) + tlc_scns
     nchunks = 8 if c.thorough else 4
 
     def cost(s):
